@@ -29,15 +29,36 @@ import (
 // flv.NewWriter.
 
 func (s *Scenario) sdp() string {
-	p := s.paramSet()
+	// the SDP states what is known at construction time (s.Late)
+	pm := s.partialMeta()
+	p := paramSet{VPS: pm.Vps, SPS: pm.Sps, PPS: pm.Pps}
 	var b strings.Builder
 	b.WriteString("v=0\r\no=- 0 0 IN IP4 127.0.0.1\r\ns=c08\r\nc=IN IP4 127.0.0.1\r\nt=0 0\r\n")
 	b.WriteString("m=video 0 RTP/AVP 96\r\nb=AS:2500\r\n")
 	e := base64.StdEncoding.EncodeToString
 	if s.Codec == "H265" {
-		fmt.Fprintf(&b, "a=rtpmap:96 H265/90000\r\na=fmtp:96 sprop-vps=%s; sprop-sps=%s; sprop-pps=%s\r\n", e(p.VPS), e(p.SPS), e(p.PPS))
+		b.WriteString("a=rtpmap:96 H265/90000\r\n")
+		var props []string
+		for _, kv := range []struct {
+			k string
+			v []byte
+		}{{"sprop-vps", p.VPS}, {"sprop-sps", p.SPS}, {"sprop-pps", p.PPS}} {
+			if len(kv.v) > 0 {
+				props = append(props, kv.k+"="+e(kv.v))
+			}
+		}
+		if len(props) > 0 {
+			b.WriteString("a=fmtp:96 " + strings.Join(props, "; ") + "\r\n")
+		}
 	} else {
-		fmt.Fprintf(&b, "a=rtpmap:96 H264/90000\r\na=fmtp:96 packetization-mode=1; sprop-parameter-sets=%s,%s; profile-level-id=%02X%02X%02X\r\n", e(p.SPS), e(p.PPS), p.SPS[1], p.SPS[2], p.SPS[3])
+		b.WriteString("a=rtpmap:96 H264/90000\r\na=fmtp:96 packetization-mode=1")
+		switch {
+		case len(p.SPS) > 0 && len(p.PPS) > 0:
+			fmt.Fprintf(&b, "; sprop-parameter-sets=%s,%s", e(p.SPS), e(p.PPS))
+		case len(p.SPS) > 0:
+			fmt.Fprintf(&b, "; sprop-parameter-sets=%s", e(p.SPS))
+		}
+		b.WriteString("\r\n")
 	}
 	b.WriteString("a=control:streamid=0\r\n")
 	if s.Audio {
@@ -254,6 +275,11 @@ func runStreamScenario(s *Scenario) (*failure, caseStats) {
 			return fl, cs
 		}
 	}
+	// in-band parameter sets complete the stream's metadata before the first
+	// frame reaches the muxer (the depacketiser writes into Stream.Video)
+	if s.Late != "" {
+		s.complete(&st.Video)
+	}
 	for i, f := range s.Frames {
 		if err := st.WriteFrame(s.codecFrame(f)); err != nil {
 			return failf("muxer-error", "Stream.WriteFrame: %v", err), cs
@@ -315,11 +341,11 @@ func runStreamScenario(s *Scenario) (*failure, caseStats) {
 func TestStreamHTTPFlv(t *testing.T) {
 	evid.Rule(ruleText)
 	evid.Assume("layer C joins are placed between frames (after the tag of frame k has reached every attached consumer), not inside a publish; races between join and publish belong to C01/C02")
-	evid.Checks(600, 5000)
+	evid.Checks(300, 5000)
 	rapid.Check(t, func(t *rapid.T) {
 		codecName := rapid.SampledFrom([]string{"H264", "H265"}).Draw(t, "codec")
 		audio := rapid.Bool().Draw(t, "audio")
-		s := drawScenario(t, "stream", codecName, audio)
+		s := drawScenario(t, "stream", codecName, audio, nil)
 		// the 2-byte 4:2:2 / RExt captures are fine for the packetisers, but the
 		// metadata width/height of this layer come from ipchub's own SPS parser
 		// (property C15); keep to the captures whose size ipchub's tests assert
